@@ -73,3 +73,8 @@ add("C12", "exploration",
     "Held on the executions explored: every concurrent history of register / unregister / list / call / get / read on the tools, prompts and resources registries was linearizable (no torn, duplicate or phantom entry, resources in registration order, entries registered throughout always callable, never-registered ones refused, handlers replaced atomically); no process death and no race report on a registry under the hammer workload.",
     "Porcupine timeouts are inconclusive. The static lockset analysis of the anchor is replaced by dynamic detectors on the driven paths.",
     "DESIGN.md section 4 C12")
+add("C13", "exploration",
+    "runtime monitoring: K raw clients with unique header tokens; handlers, list filters and a middleware echo the context values / session / server handle / sender they see; gated handlers make all K requests overlap inside handlers; per-response isolation checker and reference list filter",
+    "Held on the executions explored: with up to 32 clients whose requests overlapped inside handlers, every handler, filter and middleware saw exactly its own request's context-function values (second function after the first), session, server handle and notification sender; every list response equalled the reference filter's view for its caller (Streamable stateful / stateless, JSON / SSE; legacy SSE).",
+    "Presence is required only where the library documents it. Stateless sessions are per-request temporaries.",
+    "DESIGN.md section 4 C13")
